@@ -24,11 +24,13 @@ pub struct Opts {
     pub upd: i64,              // -u
     pub m: Option<Vec<u32>>,   // -M
     pub dl: bool,              // -D <tmp file>
+    #[serde(default)]
+    pub fmt: Option<String>,   // -F (declared by the program, currently without effect)
 }
 
 impl Default for Opts {
     fn default() -> Self {
-        Opts { u: false, r: false, c: false, f: None, i: vec!["Q".into()], o: vec!["sA".into()], d: 1_000_000, upd: 3, m: None, dl: false }
+        Opts { u: false, r: false, c: false, f: None, i: vec!["Q".into()], o: vec!["sA".into()], d: 1_000_000, upd: 3, m: None, dl: false, fmt: None }
     }
 }
 
@@ -54,7 +56,7 @@ impl Opts {
             downlink_log: if self.dl { Some(format!("{}.dl", source)) } else { None },
             error_log: None,
             filter: self.f.clone(),
-            format: None,
+            format: self.fmt.clone(),
             log_messages: self.m.clone(),
             order_by: self.o.clone(),
             observer_coord: None,
@@ -72,6 +74,7 @@ impl Opts {
         if self.r { s.push_str("-R "); }
         if self.c { s.push_str("-c "); }
         if let Some(f) = &self.f { s.push_str(&format!("-f{:?} ", f)); }
+        if let Some(f) = &self.fmt { s.push_str(&format!("-F{} ", f)); }
         s.push_str(&format!("-i{} -o{} -d{} -u{}", self.i.concat(), self.o.concat(), self.d, self.upd));
         s
     }
